@@ -186,6 +186,33 @@ func c01One(c *vk.Ctx, prop string, e reg.Entry, idx []int, id string) uint64 {
 				return
 			}
 			th = vk.Hash(th, fmt.Sprint(db.Rows, db.Columns))
+			// (a+) nothing the library handed out may alias state shared with OTHER objects: a
+			// second, unrelated column of the same composition and a string array are encoded and
+			// decoded through their own buffers and readers; afterwards the first column must
+			// still hold its values and the first encoding must be byte-for-byte what it was
+			if rev == c01Revs[0] && len(idx) > 0 {
+				keep := append([]byte{}, plain...)
+				if msg := disturb01(e, idx, rev); msg != "" {
+					fail("interleaved-second-object", msg)
+					return
+				}
+				if !bytes.Equal(keep, plain) {
+					fail("encoding-changed-by-other-object", fmt.Sprintf("rev %d: the encoded block changed while another column was encoded and decoded: %s -> %s", rev, vk.Hex(keep), vk.Hex(plain)))
+					return
+				}
+				if got := rowsCanon(fresh); !refcol.Equal(anyList(got), anyList(want)) {
+					fail("decoded-values-changed-by-other-object", fmt.Sprintf("rev %d: after another column was encoded and decoded the column holds %s, it held %s", rev, refcol.Show(anyList(got)), refcol.Show(anyList(want))))
+					return
+				}
+				if again, err := encodeBlock1(col.C, "col", rev, nil); err != nil || !bytes.Equal(again, keep) {
+					fail("re-encode-after-other-object-differs", fmt.Sprintf("rev %d: encoding the column again after another column was encoded and decoded gives %s (err %v), before %s", rev, vk.Hex(again), err, vk.Hex(keep)))
+					return
+				}
+				if got := rowsCanon(col); !refcol.Equal(anyList(got), anyList(want)) {
+					fail("appended-values-changed-by-other-object", fmt.Sprintf("rev %d: after another column was encoded and decoded the source column holds %s, it held %s", rev, refcol.Show(anyList(got)), refcol.Show(anyList(want))))
+					return
+				}
+			}
 			// (a') the same contents as the reference server writes them (for LowCardinality also
 			// with keys wider than the library would choose) must decode to the same values
 			if !noRef(e.Label) && len(idx) > 0 {
@@ -296,6 +323,51 @@ func c01One(c *vk.Ctx, prop string, e reg.Entry, idx []int, id string) uint64 {
 
 func anyList(v []any) any { return v }
 
+// disturb01 exercises a second object of the same composition (other values: the sequence
+// reversed and rotated) and an Array(String) column through their own buffers and readers.
+func disturb01(e reg.Entry, idx []int, rev int) string {
+	other := make([]int, len(idx))
+	for i := range idx {
+		other[i] = idx[len(idx)-1-i] + 1
+	}
+	probe, err := reg.Wrap(e.New(), e.Label)
+	if err != nil {
+		return ""
+	}
+	na := len(probe.Alphabet())
+	for i := range other {
+		other[i] %= na
+	}
+	c2, _, want2, err := build(e, other)
+	if err != nil {
+		return ""
+	}
+	b2, err := encodeBlock1(c2.C, "col", rev, []byte{7})
+	if err != nil {
+		return ""
+	}
+	f2, _ := reg.Wrap(e.New(), e.Label)
+	var db proto.Block
+	if err := db.DecodeBlock(proto.NewReader(bytes.NewReader(b2[1:])), rev, proto.Results{{Name: "col", Data: f2.C}}); err != nil {
+		return "second object of the same composition does not decode: " + err.Error()
+	}
+	if got := rowsCanon(f2); !refcol.Equal(anyList(got), anyList(want2)) {
+		return "second object of the same composition decodes to other values than it was given"
+	}
+	arr := proto.NewArray[string](new(proto.ColStr))
+	arr.Append([]string{"disturb", "", "other-object"})
+	b3, err := encodeBlock1(arr, "col", rev, nil)
+	if err != nil {
+		return ""
+	}
+	a2 := proto.NewArray[string](new(proto.ColStr))
+	var db3 proto.Block
+	if err := db3.DecodeBlock(proto.NewReader(bytes.NewReader(b3)), rev, proto.Results{{Name: "col", Data: a2}}); err != nil {
+		return "Array(String) side block does not decode: " + err.Error()
+	}
+	return ""
+}
+
 // serverSpellings lists other type strings with the same wire layout as t, as a server
 // spells them: Decimal(P, S) for the fixed-width decimals (both ends of each precision
 // range), explicit time zones for the timestamps.
@@ -351,7 +423,7 @@ func rowsCanonAs(inferred, typed *reg.Col) (out []any) {
 
 // C01 — block encode -> decode is the identity for every column type and nesting.
 func C01(c *vk.Ctx) {
-	c.Rule("every column composition of the generated registry (45 base columns; Array / Nullable / LowCardinality / Map(String,.) / Map(.,String) / Tuple(.,String) wrappers wherever the exported generic constructors type-check, to depth 2) x every value sequence of length <= L (quick 2, thorough 3) over the per-type boundary alphabet (0, +-1, min, max, NaN/Inf/-0/denormal, strings of 0/1/127/128 bytes, nulls, empty and nested arrays, range ends of the date types) x revisions {54460, 54453, 51902} x output buffer {empty, 1 byte, 9 bytes pre-filled}; plus size-triggered cases (LowCardinality dictionaries of 254..257 and 65534..65537 distinct values, strings of 16383 / 16384 / 2^20-1 / 2^20 / 2^20+1 / 2^21-1 / 2^21 bytes in String, Array(String), LowCardinality(String) and Nullable(String), decoded into a fresh and into a used-and-Reset column). Oracles: typed decode into a fresh column, typed decode of the same contents as the reference server writes them (LowCardinality keys of 8, 16 and 64 bits) and as the server spells the type (Decimal(P, S) at both ends of each width's precision range, explicit time zones; typed and inferred targets), decode through Results.Auto where ColAuto.Infer accepts the type, independent reference decode (refcol) with exact consumption, buffer independence, re-encode equality, WriteBlock+Flush = EncodeBlock; the same run in the purego build must produce the same transcript. distinct_nontrivial = (composition, value sequence) cases with at least one row.")
+	c.Rule("every column composition of the generated registry (45 base columns; Array / Nullable / LowCardinality / Map(String,.) / Map(.,String) / Tuple(.,String) wrappers wherever the exported generic constructors type-check, to depth 2) x every value sequence of length <= L (quick 2, thorough 3) over the per-type boundary alphabet (0, +-1, min, max, NaN/Inf/-0/denormal, strings of 0/1/127/128 bytes, nulls, empty and nested arrays, range ends of the date types) x revisions {54460, 54453, 51902} x output buffer {empty, 1 byte, 9 bytes pre-filled}; plus size-triggered cases (LowCardinality dictionaries of 254..257 and 65534..65537 distinct values, strings of 16383 / 16384 / 2^20-1 / 2^20 / 2^20+1 / 2^21-1 / 2^21 bytes in String, Array(String), LowCardinality(String) and Nullable(String), decoded into a fresh and into a used-and-Reset column). Oracles: typed decode into a fresh column, typed decode of the same contents as the reference server writes them (LowCardinality keys of 8, 16 and 64 bits) and as the server spells the type (Decimal(P, S) at both ends of each width's precision range, explicit time zones; typed and inferred targets), decode through Results.Auto where ColAuto.Infer accepts the type, independent reference decode (refcol) with exact consumption, buffer independence, independence from a second object of the same composition and an unrelated column encoded and decoded in between (no hidden shared state), re-encode equality, WriteBlock+Flush = EncodeBlock; the same run in the purego build must produce the same transcript. distinct_nontrivial = (composition, value sequence) cases with at least one row.")
 	L := 2
 	if !c.Quick() {
 		L = 3
